@@ -79,7 +79,8 @@ fn judge(text: &str, scripts: &[Vec<Call>], results: &[Option<Vec<Answer>>], stu
     if let Some(s) = stuck {
         return Some(match s {
             Stuck::Deadlock(w) => ("deadlock".to_string(), format!("no worker can make progress; workers are at {w:?}")),
-            Stuck::NoProgress => ("no-progress".to_string(), "the scheduled worker neither reached a yield point nor finished within 60 s".to_string()),
+            // a wall-clock guard is never a verdict: reported as inconclusive by the callers
+            Stuck::NoProgress => ("INCONCLUSIVE:no-progress".to_string(), "the scheduled worker neither reached a yield point nor finished within 60 s of wall time".to_string()),
         });
     }
     for (w, script) in scripts.iter().enumerate() {
@@ -159,6 +160,10 @@ fn explore(ctx: &mut Ctx, j: &mut Judge, stream: &str, n: u64, text: &'static st
         if !reported {
             if let Some((sig, desc)) = judge(text, scripts, &out.results, &out.stuck, &view) {
                 reported = true;
+                if sig.starts_with("INCONCLUSIVE") {
+                    ctx.inconclusive(format!("{desc} [text {text:?}, stream {stream}, case {n}]"));
+                    break;
+                }
                 ctx.violation(
                     &sig,
                     stream,
@@ -268,6 +273,10 @@ pub fn run(ctx: &mut Ctx) {
         note_run(ctx, &mut j, scen_hash, &out);
         ctx.bucket(&format!("sampled:{th}x{ca}"));
         if let Some((sig, desc)) = judge(t, &s, &out.results, &out.stuck, &view) {
+            if sig.starts_with("INCONCLUSIVE") {
+                ctx.inconclusive(format!("{desc} [sampled case {n}]"));
+                continue;
+            }
             ctx.violation(&sig, "sampled", n, format!("{desc} [text {t:?}, schedule {:?}]", word(&out.decisions)), json!({"scenario": scenario_json(t, &s), "schedule_workers": word(&out.decisions)}));
         }
     }
